@@ -1,18 +1,23 @@
 // gen_headers.go — Gen_Headers.v: the response-header tables of sso-proxy and sso-auth
 // (model: coq/theories/RespHeaders.v, property C18).
 //
-// Extracted, with go/ast only:
-//   - internal/proxy/middleware.go: `var securityHeaders = map[string]string{...}`   -> proxy_security_headers
-//   - internal/proxy/middleware.go: func requireHTTPS: the ONE statement of the shape
-//     `rw.Header().Set("<key>", "<value>")` that is the first statement of the returned handler's
-//     body                                                                           -> proxy_hsts
-//   - internal/proxy/reverse_proxy.go: the `ModifyResponse: func(resp *http.Response) error {...}`
-//     literal of the ReverseProxy composite literal. Its body may contain only
-//       for key := range securityHeaders { resp.Header.Del(key) [; resp.Trailer.Del(key)] }
-//       resp.Header.Del("<literal>")      resp.Trailer.Del("<literal>")      return nil
+// Extracted with the symbolic evaluator of eval.go (names are looked up in the whole package, whichever
+// file declares them; constants, concatenations, helper functions that return the table are resolved):
+//   - internal/proxy: package-level `securityHeaders`, a map[string]string                 -> proxy_security_headers
+//   - internal/proxy: func requireHTTPS returns http.HandlerFunc(F) (or F) where F is a function
+//     literal or a function of the package; the ONE top-level statement of F's body of the shape
+//     `<first parameter>.Header().Set(<key>, <value>)` must be its FIRST statement and both
+//     arguments must resolve to strings                                                     -> proxy_hsts
+//   - internal/proxy: the one `ModifyResponse: <f>` element of a composite literal (or the one
+//     assignment `<x>.ModifyResponse = <f>`) of the package; <f> must resolve to a function literal or
+//     a function of the package with one parameter. It is EXECUTED on an opaque response and its trace
+//     may contain nothing but
+//     <resp>.Header.Del(<resolvable string>)      <resp>.Trailer.Del(<resolvable string>)
+//     and it must return nil. Deleting keys commutes, so Dels performed while ranging over a map (or
+//     over a slice built from a map's keys) are accepted, in sorted key order:
 //     -> modify_response_deleted          (keys deleted from the upstream's header map)
 //     -> modify_response_trailer_deleted  (keys deleted from the upstream's announced trailers)
-//   - internal/auth/middleware.go: `var securityHeaders = map[string]string{...}`    -> auth_security_headers
+//   - internal/auth: package-level `securityHeaders`                                        -> auth_security_headers
 //
 // Tables are emitted sorted by key (Go iterates maps in random order; the model proves the
 // result independent of the order for tables whose canonical keys are distinct, which a
@@ -22,7 +27,6 @@ package main
 import (
 	"fmt"
 	"go/ast"
-	"path/filepath"
 	"sort"
 	"strings"
 )
@@ -57,15 +61,6 @@ func coqStrList(name string, l []string) string {
 	return b.String()
 }
 
-func findFunc(f *ast.File, name string) *ast.FuncDecl {
-	for _, d := range f.Decls {
-		if fd, ok := d.(*ast.FuncDecl); ok && fd.Recv == nil && fd.Name.Name == name {
-			return fd
-		}
-	}
-	return nil
-}
-
 // selector chain a.b.c as "a.b.c"; "" if the expression is not a pure selector chain.
 // A call with no arguments in the chain is rendered as "name()".
 func chain(e ast.Expr) string {
@@ -91,152 +86,172 @@ func chain(e ast.Expr) string {
 	return ""
 }
 
-// hstsFromRequireHTTPS finds rw.Header().Set("k", "v") as the first statement of the handler
-// literal returned by requireHTTPS.
-func hstsFromRequireHTTPS(f *ast.File) ([2]string, error) {
+// hstsFromRequireHTTPS finds <rw>.Header().Set(k, v) as the first statement of the handler
+// returned by requireHTTPS.
+func hstsFromRequireHTTPS(pkg *pkgInfo) ([2]string, error) {
 	var none [2]string
-	fd := findFunc(f, "requireHTTPS")
-	if fd == nil || fd.Body == nil || len(fd.Body.List) != 1 {
-		return none, fmt.Errorf("requireHTTPS: expected a single return statement")
+	fd := pkg.funcs["requireHTTPS"]
+	if fd == nil || fd.Body == nil || pkg.dupFuncs["requireHTTPS"] {
+		return none, fmt.Errorf("%s: func requireHTTPS not found", pkg.rel)
 	}
-	ret, ok := fd.Body.List[0].(*ast.ReturnStmt)
-	if !ok || len(ret.Results) != 1 {
-		return none, fmt.Errorf("requireHTTPS: expected `return http.HandlerFunc(func...)`")
+	file := pkg.fileName[pkg.funcFile[fd]]
+	ev := newEvaluator(pkg)
+	ret, _, err := ev.runRoot(ev.funcOfDecl(fd, nil))
+	if err != nil {
+		return none, fmt.Errorf("%s: requireHTTPS: %v", file, err)
 	}
-	call, ok := ret.Results[0].(*ast.CallExpr)
-	if !ok || chain(call.Fun) != "http.HandlerFunc" || len(call.Args) != 1 {
-		return none, fmt.Errorf("requireHTTPS: expected `return http.HandlerFunc(func...)`")
+	h, ok := stripHandlerConv(ret).(*funcVal)
+	if !ok || h.body == nil {
+		return none, fmt.Errorf("%s: requireHTTPS: expected `return http.HandlerFunc(func...)`, found %s", file, describe(ret))
 	}
-	lit, ok := call.Args[0].(*ast.FuncLit)
-	if !ok || len(lit.Body.List) == 0 {
-		return none, fmt.Errorf("requireHTTPS: handler is not a function literal")
+	names, _ := paramNames(h.typ.Params)
+	if len(names) != 2 || names[0] == "_" {
+		return none, fmt.Errorf("%s: requireHTTPS: the handler does not have the two parameters of an http handler", file)
+	}
+	if len(h.body.List) == 0 {
+		return none, fmt.Errorf("%s: requireHTTPS: handler is not a function with a body", file)
+	}
+	// the handler's parameters are opaque; its closure scope is the one the evaluator built
+	sc := ev.newScope(h.env)
+	for _, a := range names {
+		if a != "_" {
+			sc.vars[a] = &variable{&symVal{name: a}}
+		}
+	}
+	if h.recvName != "" && h.recvName != "_" {
+		sc.vars[h.recvName] = &variable{&symVal{name: h.recvName, typ: h.recvType}}
 	}
 	var found [][2]string
-	for i, st := range lit.Body.List {
+	for i, st := range h.body.List {
 		es, ok := st.(*ast.ExprStmt)
 		if !ok {
 			continue
 		}
 		c, ok := es.X.(*ast.CallExpr)
-		if !ok || chain(c.Fun) != "rw.Header().Set" || len(c.Args) != 2 {
+		if !ok || chain(c.Fun) != names[0]+".Header().Set" || len(c.Args) != 2 {
 			continue
 		}
-		k, err1 := stringLit(c.Args[0])
-		v, err2 := stringLit(c.Args[1])
-		if err1 != nil || err2 != nil {
-			return none, fmt.Errorf("requireHTTPS: rw.Header().Set with non-literal arguments")
+		k, err1 := ev.evalExpr(c.Args[0], sc)
+		v, err2 := ev.evalExpr(c.Args[1], sc)
+		ks, ok1 := k.(strVal)
+		vs, ok2 := v.(strVal)
+		if err1 != nil || err2 != nil || !ok1 || !ok2 {
+			why := ""
+			for _, e := range []error{err1, err2} {
+				if e != nil {
+					why += ": " + e.Error()
+				}
+			}
+			return none, fmt.Errorf("%s: requireHTTPS: %s.Header().Set with arguments that are not resolvable strings%s", file, names[0], why)
 		}
 		if i != 0 {
-			return none, fmt.Errorf("requireHTTPS: rw.Header().Set(%q, ...) is not the first statement of the handler", k)
+			return none, fmt.Errorf("%s: requireHTTPS: %s.Header().Set(%q, ...) is not the first statement of the handler", file, names[0], string(ks))
 		}
-		found = append(found, [2]string{k, v})
+		found = append(found, [2]string{string(ks), string(vs)})
 	}
 	if len(found) != 1 {
-		return none, fmt.Errorf("requireHTTPS: expected exactly one leading rw.Header().Set(literal, literal), found %d", len(found))
+		return none, fmt.Errorf("%s: requireHTTPS: expected exactly one leading %s.Header().Set(string, string), found %d", file, names[0], len(found))
 	}
 	return found[0], nil
 }
 
-// delCall recognises resp.Header.Del(X) / resp.Trailer.Del(X); which is "Header" or "Trailer".
-func delCall(st ast.Stmt) (which string, arg ast.Expr, ok bool) {
-	es, isExpr := st.(*ast.ExprStmt)
-	if !isExpr {
-		return "", nil, false
-	}
-	c, isCall := es.X.(*ast.CallExpr)
-	if !isCall || len(c.Args) != 1 {
-		return "", nil, false
-	}
-	switch chain(c.Fun) {
-	case "resp.Header.Del":
-		return "Header", c.Args[0], true
-	case "resp.Trailer.Del":
-		return "Trailer", c.Args[0], true
-	}
-	return "", nil, false
-}
-
-func findModifyResponse(f *ast.File) *ast.FuncLit {
-	var out *ast.FuncLit
-	ast.Inspect(f, func(n ast.Node) bool {
-		kv, ok := n.(*ast.KeyValueExpr)
-		if !ok {
-			return true
-		}
-		if id, ok := kv.Key.(*ast.Ident); ok && id.Name == "ModifyResponse" {
-			if fl, ok := kv.Value.(*ast.FuncLit); ok && out == nil {
-				out = fl
+// findModifyResponse returns the one expression the package installs as a ReverseProxy's ModifyResponse hook.
+func findModifyResponse(pkg *pkgInfo) (ast.Expr, error) {
+	var sites []ast.Expr
+	for _, f := range pkg.files {
+		ast.Inspect(f, func(n ast.Node) bool {
+			switch x := n.(type) {
+			case *ast.KeyValueExpr:
+				if id, ok := x.Key.(*ast.Ident); ok && id.Name == "ModifyResponse" {
+					sites = append(sites, x.Value)
+				}
+			case *ast.AssignStmt:
+				for i, l := range x.Lhs {
+					if se, ok := l.(*ast.SelectorExpr); ok && se.Sel.Name == "ModifyResponse" {
+						if len(x.Rhs) != len(x.Lhs) {
+							sites = append(sites, nil)
+						} else {
+							sites = append(sites, x.Rhs[i])
+						}
+					}
+				}
 			}
-		}
-		return true
-	})
-	return out
+			return true
+		})
+	}
+	switch {
+	case len(sites) == 0:
+		return nil, fmt.Errorf("%s: no `ModifyResponse: <function>` found", pkg.rel)
+	case len(sites) > 1:
+		return nil, fmt.Errorf("%s: %d places set a ModifyResponse hook; which one applies is not resolved", pkg.rel, len(sites))
+	case sites[0] == nil:
+		return nil, fmt.Errorf("%s: ModifyResponse is set by a multi-value assignment", pkg.rel)
+	}
+	return sites[0], nil
 }
 
 // modifyResponseDeleted returns the keys deleted from resp.Header and from resp.Trailer.
-func modifyResponseDeleted(f *ast.File, tableKeys []string) (hdr []string, trl []string, err error) {
-	fl := findModifyResponse(f)
-	if fl == nil {
-		return nil, nil, fmt.Errorf("no `ModifyResponse: func(...)` literal found")
+func modifyResponseDeleted(pkg *pkgInfo) (file string, hdr []string, trl []string, err error) {
+	site, err := findModifyResponse(pkg)
+	if err != nil {
+		return "", nil, nil, err
 	}
-	if fl.Type.Params == nil || len(fl.Type.Params.List) != 1 || len(fl.Type.Params.List[0].Names) != 1 ||
-		fl.Type.Params.List[0].Names[0].Name != "resp" {
-		return nil, nil, fmt.Errorf("ModifyResponse: expected a single parameter named resp")
+	file = pkg.fileName[pkg.fileOf(site)]
+	ev := newEvaluator(pkg)
+	var sc *scope
+	if fd := pkg.enclosingFunc(site); fd != nil {
+		sc = ev.enclosingScope(fd)
+	} else {
+		sc = ev.fileScope(pkg.fileOf(site))
 	}
-	for _, st := range fl.Body.List {
-		switch s := st.(type) {
-		case *ast.RangeStmt:
-			key, ok := s.Key.(*ast.Ident)
-			if !ok || s.Value != nil || chain(s.X) != "securityHeaders" {
-				return nil, nil, fmt.Errorf("ModifyResponse: unsupported range statement (want `for key := range securityHeaders`)")
-			}
-			for _, inner := range s.Body.List {
-				which, arg, ok := delCall(inner)
-				id, isID := arg.(*ast.Ident)
-				if !ok || !isID || id.Name != key.Name {
-					return nil, nil, fmt.Errorf("ModifyResponse: unsupported statement inside the range loop")
+	v, err := ev.evalExpr(site, sc)
+	if err != nil {
+		return file, nil, nil, fmt.Errorf("%s: ModifyResponse: %v", file, err)
+	}
+	fv, ok := v.(*funcVal)
+	if !ok || fv.body == nil {
+		return file, nil, nil, fmt.Errorf("%s: ModifyResponse: %s is not resolvable to a function literal or a function of the package", file, describe(v))
+	}
+	names, _ := paramNames(fv.typ.Params)
+	if len(names) != 1 || names[0] == "_" {
+		return file, nil, nil, fmt.Errorf("%s: ModifyResponse: expected a function of one (named) parameter", file)
+	}
+	ret, trace, err := ev.runRoot(fv)
+	if err != nil {
+		return file, nil, nil, fmt.Errorf("%s: ModifyResponse: %v", file, err)
+	}
+	if _, isNil := ret.(nilVal); !isNil {
+		return file, nil, nil, fmt.Errorf("%s: ModifyResponse: returns something other than nil (%s)", file, describe(ret))
+	}
+	for _, e := range trace {
+		x, name, ok := nameOf(e.fun)
+		which := ""
+		if ok && name == "Del" {
+			if s, isSel := x.(*selVal); isSel && (s.sel == "Header" || s.sel == "Trailer") {
+				if p, isSym := s.x.(*symVal); isSym && p.name == names[0] {
+					which = s.sel
 				}
-				if which == "Header" {
-					hdr = append(hdr, tableKeys...)
-				} else {
-					trl = append(trl, tableKeys...)
-				}
 			}
-		case *ast.ExprStmt:
-			which, arg, ok := delCall(s)
-			if !ok {
-				return nil, nil, fmt.Errorf("ModifyResponse: unsupported expression statement")
-			}
-			lit, err := stringLit(arg)
-			if err != nil {
-				return nil, nil, fmt.Errorf("ModifyResponse: Del with a non-literal key outside the range loop")
-			}
-			if which == "Header" {
-				hdr = append(hdr, lit)
-			} else {
-				trl = append(trl, lit)
-			}
-		case *ast.ReturnStmt:
-			if len(s.Results) != 1 {
-				return nil, nil, fmt.Errorf("ModifyResponse: unsupported return")
-			}
-			if id, ok := s.Results[0].(*ast.Ident); !ok || id.Name != "nil" {
-				return nil, nil, fmt.Errorf("ModifyResponse: returns something other than nil")
-			}
-		default:
-			return nil, nil, fmt.Errorf("ModifyResponse: unsupported statement %T", st)
+		}
+		if which == "" {
+			return file, nil, nil, fmt.Errorf("%s: ModifyResponse: unsupported call %s (only %s.Header.Del and %s.Trailer.Del are understood)",
+				pkg.pos(e.site), describe(e), names[0], names[0])
+		}
+		if len(e.args) != 1 || e.ellipsis {
+			return file, nil, nil, fmt.Errorf("%s: ModifyResponse: Del with %d arguments", pkg.pos(e.site), len(e.args))
+		}
+		k, ok := e.args[0].(strVal)
+		if !ok {
+			return file, nil, nil, fmt.Errorf("%s: ModifyResponse: Del with a key that is not a resolvable string (%s)", pkg.pos(e.site), describe(e.args[0]))
+		}
+		// e.unord (a Del performed while ranging over a map) is fine: deletions commute, the lists are sets
+		if which == "Header" {
+			hdr = append(hdr, string(k))
+		} else {
+			trl = append(trl, string(k))
 		}
 	}
-	return hdr, trl, nil
-}
-
-func sortedKeys(kv [][2]string) []string {
-	var ks []string
-	for _, p := range kv {
-		ks = append(ks, p[0])
-	}
-	sort.Strings(ks)
-	return ks
+	return file, hdr, trl, nil
 }
 
 func genHeaders(repo string) (string, error) {
@@ -246,59 +261,46 @@ func genHeaders(repo string) (string, error) {
 	b.WriteString("From V Require Import Base.\nOpen Scope N_scope.\n\n")
 
 	// proxy
-	pm := filepath.Join(repo, "internal/proxy/middleware.go")
-	_, pf, err := parseFile(pm)
+	pp, err := loadPackage(repo, "internal/proxy")
 	if err != nil {
 		return "", err
 	}
-	e := findVar(pf, "securityHeaders")
-	if e == nil {
-		return "", fmt.Errorf("internal/proxy/middleware.go: var securityHeaders not found")
-	}
-	ptab, err := stringMap(e)
+	ptab, err := newEvaluator(pp).stringTable("securityHeaders")
 	if err != nil {
-		return "", fmt.Errorf("internal/proxy/middleware.go: securityHeaders: %v", err)
+		return "", fmt.Errorf("internal/proxy: securityHeaders: %v", err)
 	}
-	b.WriteString("(* internal/proxy/middleware.go: var securityHeaders *)\n")
+	fmt.Fprintf(&b, "(* %s: var securityHeaders *)\n", pp.declFile("securityHeaders"))
 	b.WriteString(coqTable("proxy_security_headers", ptab))
-	hsts, err := hstsFromRequireHTTPS(pf)
+	hsts, err := hstsFromRequireHTTPS(pp)
 	if err != nil {
-		return "", fmt.Errorf("internal/proxy/middleware.go: %v", err)
+		return "", err
 	}
-	fmt.Fprintf(&b, "\n(* internal/proxy/middleware.go: requireHTTPS: rw.Header().Set(%q, %q) *)\n", hsts[0], hsts[1])
+	fmt.Fprintf(&b, "\n(* %s: requireHTTPS: rw.Header().Set(%q, %q) *)\n", pp.fileName[pp.funcFile[pp.funcs["requireHTTPS"]]], hsts[0], hsts[1])
 	fmt.Fprintf(&b, "Definition proxy_hsts : str * str :=\n  (%s,\n   %s).\n", coqStr(hsts[0]), coqStr(hsts[1]))
 
-	_, rf, err := parseFile(filepath.Join(repo, "internal/proxy/reverse_proxy.go"))
+	mfile, hd, td, err := modifyResponseDeleted(pp)
 	if err != nil {
 		return "", err
 	}
-	hd, td, err := modifyResponseDeleted(rf, sortedKeys(ptab))
-	if err != nil {
-		return "", fmt.Errorf("internal/proxy/reverse_proxy.go: %v", err)
-	}
-	b.WriteString("\n(* internal/proxy/reverse_proxy.go: keys ModifyResponse deletes from the upstream's headers *)\n")
+	fmt.Fprintf(&b, "\n(* %s: keys ModifyResponse deletes from the upstream's headers *)\n", mfile)
 	b.WriteString(coqStrList("modify_response_deleted", hd))
-	b.WriteString("\n(* internal/proxy/reverse_proxy.go: keys ModifyResponse deletes from the upstream's trailers *)\n")
+	fmt.Fprintf(&b, "\n(* %s: keys ModifyResponse deletes from the upstream's trailers *)\n", mfile)
 	b.WriteString(coqStrList("modify_response_trailer_deleted", td))
 
 	// authenticator
-	_, af, err := parseFile(filepath.Join(repo, "internal/auth/middleware.go"))
+	ap, err := loadPackage(repo, "internal/auth")
 	if err != nil {
 		return "", err
 	}
-	e = findVar(af, "securityHeaders")
-	if e == nil {
-		return "", fmt.Errorf("internal/auth/middleware.go: var securityHeaders not found")
-	}
-	atab, err := stringMap(e)
+	atab, err := newEvaluator(ap).stringTable("securityHeaders")
 	if err != nil {
-		return "", fmt.Errorf("internal/auth/middleware.go: securityHeaders: %v", err)
+		return "", fmt.Errorf("internal/auth: securityHeaders: %v", err)
 	}
 	// setHeaders must range over securityHeaders and Set each pair before calling the handler
-	if fd := findFunc(af, "setHeaders"); fd == nil {
-		return "", fmt.Errorf("internal/auth/middleware.go: func setHeaders not found")
+	if fd := ap.funcs["setHeaders"]; fd == nil {
+		return "", fmt.Errorf("internal/auth: func setHeaders not found")
 	}
-	b.WriteString("\n(* internal/auth/middleware.go: var securityHeaders *)\n")
+	fmt.Fprintf(&b, "\n(* %s: var securityHeaders *)\n", ap.declFile("securityHeaders"))
 	b.WriteString(coqTable("auth_security_headers", atab))
 	return b.String(), nil
 }
